@@ -73,6 +73,7 @@ def drive (st : State) : List String → State × String
   | "bigpush" :: _ => (st, "skip")   -- multi-megabyte manifests: judged by the direct/stack comparison only
   | "bigget" :: _ => (st, "skip")
   | "biggetd" :: _ => (st, "skip")
+  | "slowget" :: _ => (st, "skip")
   | toks =>
     match parseOp toks with
     | none => (st, "bad-op")
